@@ -1,6 +1,7 @@
 package main
 
 import (
+	"regexp"
 	"fmt"
 	"go/constant"
 	"go/token"
@@ -135,6 +136,10 @@ type fgen struct {
 	stackLocals   []stackLocal    // non-escaping locals (callees cannot write them)
 	guardInfos    []*guardInfo
 	freshRefs     map[string]bool // refs allocated by this function
+	fullHavocs    []*fullHavoc // unbounded-frame calls seen so far
+	factSeen      map[string]bool
+	witTerms      []val // instantiation hints of the contract (witness clauses)
+	intKeys       map[string]intInfo // heap keys whose cells hold a machine integer type
 	quantReqs     []quantAssumed
 	instDone      map[string]bool
 	instTerms     []string
@@ -148,6 +153,48 @@ func (g *fgen) declare(name, sort string) {
 	}
 	g.declared[name] = true
 	g.emit(fmt.Sprintf("(declare-const %s %s)", name, sort))
+	if len(name) > 1 && name[0] == 'H' {
+		g.heapTyping(name, sort)
+	}
+}
+
+var reHeapName = regexp.MustCompile(`^H[0-9]*_(.*?)(?:_hv)?(?:![0-9]+)?$`)
+
+// heapTyping: every version of a heap array whose cells hold a machine integer of a
+// known type holds values in that type's range (Go typing, an invariant of the memory
+// model).  Stated once per version with a plain select pattern.
+func (g *fgen) heapTyping(name, sort string) {
+	m := reHeapName.FindStringSubmatch(name)
+	if m == nil {
+		return
+	}
+	ii, ok := g.intKeys[m[1]]
+	if !ok {
+		return
+	}
+	switch sort {
+	case "Int":
+		g.emit(fmt.Sprintf("(assert (and (<= %s %s) (<= %s %s)))", ii.min(), name, name, ii.max()))
+	case "(Array Int Int)":
+		g.emit(fmt.Sprintf("(assert (forall ((r!t Int)) (! (and (<= %s (select %s r!t)) (<= (select %s r!t) %s)) :pattern ((select %s r!t)))))", ii.min(), name, name, ii.max(), name))
+	case "(Array Int (Array Int Int))":
+		g.emit(fmt.Sprintf("(assert (forall ((r!t Int) (i!t Int)) (! (and (<= %s (select (select %s r!t) i!t)) (<= (select (select %s r!t) i!t) %s)) :pattern ((select (select %s r!t) i!t)))))", ii.min(), name, name, ii.max(), name))
+	}
+}
+
+// noteKeyType records the machine integer type held by the cells of heap key k.
+func (g *fgen) noteKeyType(k string, root int, t types.Type) {
+	if root == rootBox {
+		return // box heaps are shared by all types of one sort
+	}
+	if b, ok := t.Underlying().(*types.Basic); ok && b.Info()&types.IsInteger != 0 {
+		if ii, ok := intInfoOf(t); ok {
+			if g.intKeys == nil {
+				g.intKeys = map[string]intInfo{}
+			}
+			g.intKeys[k] = ii
+		}
+	}
 }
 
 func (g *fgen) fresh(prefix, sort string) string {
@@ -161,7 +208,15 @@ func (g *fgen) fact(guard, f string) {
 	if f == "true" {
 		return
 	}
-	g.emit("(assert " + implies(guard, f) + ")")
+	line := "(assert " + implies(guard, f) + ")"
+	if g.factSeen == nil {
+		g.factSeen = map[string]bool{}
+	}
+	if g.factSeen[line] {
+		return
+	}
+	g.factSeen[line] = true
+	g.emit(line)
 }
 
 func (g *fgen) unsupported(format string, a ...any) {
@@ -450,6 +505,7 @@ func (g *fgen) leafKey(l *loc, path []int, leafT types.Type) string {
 	k := heapKey(l.root, l.rootT, path)
 	if _, ok := g.heapSort[k]; !ok {
 		g.heapSort[k] = g.heapSortFor(l.root, g.sortOf(leafT))
+		g.noteKeyType(k, l.root, leafT)
 	}
 	return k
 }
@@ -631,7 +687,18 @@ func (g *fgen) havocKeyFresh(st *state, key, oldAlloc string) {
 	st.heap[key] = n
 }
 
+// fullHavoc records a point where the whole heap was havocked (a call with an unbounded
+// frame): guard is the path condition, cond the callee's conditional-frame condition
+// ("false" if it has none), except the keys its conditional frame lets change.
+type fullHavoc struct {
+	guard  string
+	cond   string
+	except map[string]bool
+	who    string
+}
+
 func (g *fgen) havocAll(st *state) {
+	g.fullHavocs = append(g.fullHavocs, &fullHavoc{guard: g.curGuard, cond: "false"})
 	st.heap = map[string]string{}
 	st.epoch = g.newEpoch(nil)
 	na := g.fresh("alloc", "Int")
@@ -887,8 +954,16 @@ func (g *fgen) oblige(kind, label, goal string, pos token.Pos) {
 	if goal == "true" {
 		// trivially true: still count it, discharged without solver
 	}
+	var extra []string
 	if strings.HasPrefix(goal, "(forall ((") {
+		// skolem constants and the instances at them are private to this obligation
+		n := len(g.lines)
 		goal = g.skolemizeGoal(goal)
+		extra = append(extra, g.lines[n:]...)
+		for _, l := range g.lines[n:] {
+			delete(g.factSeen, l)
+		}
+		g.lines = g.lines[:n]
 	}
 	base := fmt.Sprintf("%s.%s#%s", shortPkg(g.pkgPath), g.key, kind)
 	if label != "" {
@@ -899,7 +974,7 @@ func (g *fgen) oblige(kind, label, goal string, pos token.Pos) {
 	if n := g.oblSeq[base]; n > 1 {
 		name = fmt.Sprintf("%s~%d", base, n)
 	}
-	o := &obligation{name: name, fn: shortPkg(g.pkgPath) + "." + g.key, kind: kind, goal: goal, guard: g.curGuard, nlines: len(g.lines), gen: g}
+	o := &obligation{name: name, fn: shortPkg(g.pkgPath) + "." + g.key, kind: kind, goal: goal, guard: g.curGuard, nlines: len(g.lines), gen: g, extra: extra}
 	if pos.IsValid() {
 		p := g.w.fset.Position(pos)
 		o.pos = fmt.Sprintf("%s:%d", strings.TrimPrefix(p.Filename, repoDir+"/"), p.Line)
